@@ -2,7 +2,7 @@
    rows_of s g et = the net.group rows of group g and element type et (the impl requires at most one);
    gmem = element_index of the row; tab s et = the element table. *)
 From Coq Require Import ZArith List Bool String.
-From PPV Require Import C27.Model C27.Proofs.
+From PPV Require Import C27.Model C27.Proofs C27.Refine.
 Import ListNotations.
 Open Scope Z_scope.
 
@@ -69,3 +69,76 @@ Print Assumptions C27_detach_reference_column_refuted.
 Theorem C27_index_difference_is_set_difference : forall x l d, In x (zdiff l d) <-> In x l /\ ~ In x d.
 Proof. exact in_zdiff. Qed.
 Print Assumptions C27_index_difference_is_set_difference.
+
+(* ------------------------------------------------------------------ refinement to the abstract set model
+   [member s g et x] (C27/Refine.v): x is a member of group g for element type et — listed in the index based row, or an
+   element of the table carrying a listed reference value for a reference-column row.  G27_refcols s: every
+   reference-column row sits on a table whose reference values (and indices) are unique (otherwise
+   C27_detach_reference_column_refuted). *)
+
+(* group_element_index reports exactly the abstract member set *)
+Theorem C27_reported_members_are_the_set : forall s g et r l,
+  rows_of s g et = [r] -> members_of s g et = Ok l -> forall x, In x l <-> member s g et x.
+Proof. exact members_of_is_member. Qed.
+Print Assumptions C27_reported_members_are_the_set.
+
+(* detach_from_groups = set difference on the selected groups of that element type, for index based and reference-column
+   rows alike; every other (group, type) keeps its member set *)
+Theorem C27_detach_refines_set_model : forall s et idl sl g et' x,
+  G27_refcols s = true ->
+  (member (detach s et idl sl) g et' x <-> member s g et' x /\ ~ (et' = et /\ selected sl g /\ In x idl)).
+Proof. exact detach_member_b. Qed.
+Print Assumptions C27_detach_refines_set_model.
+
+(* drop_elements_simple: every group loses exactly the dropped elements, the table loses exactly their rows *)
+Theorem C27_drop_elements_refines_set_model : forall s et idl s',
+  G27_refcols s = true -> drop_simple s et idl = Ok s' ->
+  (forall g et' x, member s' g et' x <-> member s g et' x /\ ~ (et' = et /\ In x idl)) /\
+  (forall p, In p (tab s' et) <-> In p (tab s et) /\ ~ In (fst p) idl) /\
+  (forall e, e <> et -> tab s' e = tab s e) /\ lsw s' = lsw s.
+Proof. exact drop_simple_member_b. Qed.
+Print Assumptions C27_drop_elements_refines_set_model.
+
+(* the composite drop_lines step (line switches detached as switches and dropped, then the lines): every group loses
+   exactly the dropped lines as line members and exactly the line switches at them as switch members; the line, switch and
+   line-switch tables lose exactly these rows; rows of other element types are identical; no member-less row remains
+   (drop_lines_spec spells this out) *)
+Theorem C27_drop_lines_refines_set_model : forall s idl s',
+  G27_refcols s = true -> drop_lines s idl = Ok s' ->
+  (forall g et x, member s' g et x <->
+       member s g et x /\ ~ (et = ET_LINE /\ In x idl) /\ ~ (et = ET_SWITCH /\ In x (line_switches s idl))) /\
+  (forall p, In p (tab s' ET_LINE) <-> In p (tab s ET_LINE) /\ ~ In (fst p) idl) /\
+  (forall p, In p (tab s' ET_SWITCH) <-> In p (tab s ET_SWITCH) /\ ~ In (fst p) (line_switches s idl)) /\
+  (forall p, In p (lsw s') <-> In p (lsw s) /\ ~ In (fst p) (line_switches s idl)) /\
+  (forall e, e <> ET_LINE -> e <> ET_SWITCH -> tab s' e = tab s e) /\
+  (forall r, gty r <> ET_LINE -> gty r <> ET_SWITCH -> (In r (grp s') <-> In r (grp s))) /\
+  ((forall r, In r (grp s) -> gmem r <> []) -> forall r, In r (grp s') -> gmem r <> []).
+Proof. exact drop_lines_member_b. Qed.
+Print Assumptions C27_drop_lines_refines_set_model.
+Example C27_drop_lines_nonvacuous :
+  exists s', drop_lines s_ex [5] = Ok s' /\ line_switches s_ex [5] = [5; 9] /\
+             map (fun r => (gid r, gty r, gmem r)) (grp s') = [(0, ET_LINE, [3]); (0, ET_SWITCH, [20]); (1, 0%nat, [1])] /\
+             members_of s' 1 0%nat = Ok [2].
+Proof. exact drop_lines_nonvacuous. Qed.
+Print Assumptions C27_drop_lines_nonvacuous.
+Example C27_refcols_guard_nonvacuous : G27_refcols s_ex = true /\ G27_refcols s_w2 = false.
+Proof. exact refcols_nonvacuous. Qed.
+Print Assumptions C27_refcols_guard_nonvacuous.
+
+(* reindex_elements commutes with the set model (no guard): the member set of every group of the reindexed type is the
+   image of the old one under the renaming rho that is also applied to the table index; rho is the lookup on every existing
+   row; other element types keep their member sets and tables.  Holds for reference-column rows too (their listed
+   reference values are untouched, the elements carrying them move). *)
+Theorem C27_reindex_commutes_with_set_model : forall s et lk s',
+  reindex s et lk = Ok s' ->
+  (forall g et' x', member s' g et' x' <-> exists x, member s g et' x /\ x' = if Nat.eqb et' et then rho s et lk x else x) /\
+  tab s' et = map (fun p => (rho s et lk (fst p), snd p)) (tab s et) /\
+  (forall e, e <> et -> tab s' e = tab s e) /\
+  (forall x, In x (ids s et) -> rho s et lk x = remap lk x).
+Proof. exact reindex_member. Qed.
+Print Assumptions C27_reindex_commutes_with_set_model.
+Example C27_reindex_nonvacuous :
+  exists s', reindex s_ex ET_SWITCH [(9, 30); (5, 31)] = Ok s' /\ members_of s' 0 ET_SWITCH = Ok [31; 30; 20] /\
+             map (rho s_ex ET_SWITCH [(9, 30); (5, 31)]) [5; 9; 20; 77] = [31; 30; 20; 77].
+Proof. exact reindex_nonvacuous. Qed.
+Print Assumptions C27_reindex_nonvacuous.
